@@ -30,6 +30,9 @@ func init() {
 			x := strings.Split(v, "|")
 			surveySiblingConds(p, x[0], x[1], x[2])
 		}
+		if os.Getenv("DBGSTALE") != "" {
+			debugStale(p)
+		}
 		if os.Getenv("DBGASMCOND") != "" {
 			surveyAsmConds(p)
 		}
